@@ -52,7 +52,7 @@ ASSUMPTIONS = [
 ]
 
 MODES = {"r": "ReadOnly", "a": "ReadWrite", "w": "Overwrite"}
-IDS = ["valid", "text", "short", "missing"]
+IDS = ["valid", "text", "short", "missing", "long", "suffixed", "double", "empty"]
 TAGS = ["nix", "NIX", "nixx", "hdf5", "", None]
 TAGCLASS = {"nix": "nix", "NIX": "uppercase", "nixx": "longer", "hdf5": "other", "": "empty", None: "missing"}
 ID_THRESHOLD = (1, 2, 0)
@@ -222,6 +222,15 @@ class Base:
             return "not-a-uuid"
         if idc == "short":
             return self.old_id[:-1]
+        # a well-formed id followed by something else is not a well-formed id
+        if idc == "long":
+            return self.old_id + "0"
+        if idc == "suffixed":
+            return self.old_id + "-old"
+        if idc == "double":
+            return self.old_id + " " + self.old_id
+        if idc == "empty":
+            return ""
         return None
 
     def prepare(self, ver, idc, tag):
@@ -676,12 +685,62 @@ def run_modes(case, ctx, clock):
         ctx.violation(kb + "/open-raised", case, {"exc": type(exc).__name__})
     else:
         check_fresh(ctx, case, kb, work, f, old_id, lib)
+    # ---- overwrite while another handle of this process still holds the file open: refused (file left alone) or
+    # an empty file with a fresh header - never a "new" file that keeps the old header
+    import h5py
+    held_classes = []
+    for held in ("nix-rw", "h5py-rw", "h5py-r", "h5py-rw-old-version"):
+        kb = "C11/modes/w-existing-still-open/" + held
+        shutil.copyfile(src, work)
+        if held.endswith("old-version"):
+            with h5py.File(work, "r+") as h:
+                del h.attrs["version"]
+                h.attrs.create("version", np.array((1, 1, 0), dtype=np.int32))
+        raw0 = raw_header(work)
+        try:
+            holder = (nixio.File.open(work, nixio.FileMode.ReadWrite) if held == "nix-rw"
+                      else h5py.File(work, "r" if held == "h5py-r" else "r+"))
+        except Exception:  # noqa
+            gc.collect()
+            continue
+        try:
+            f = open_mode(work, "w")
+        except Exception:  # noqa - refused
+            gc.collect()
+            try:
+                holder.close()
+            except Exception:  # noqa
+                pass
+            gc.collect()
+            held_classes.append("modes:overwrite-while-open:%s:refused" % held)
+            raw1 = raw_header(work)
+            if raw1 != raw0:
+                ctx.violation(kb + "/refused-but-header-changed", case, {"before": raw0, "after": raw1})
+            if not held.endswith("old-version"):
+                try:
+                    g = nixio.File.open(work, nixio.FileMode.ReadOnly)
+                    try:
+                        dd = walk.diff(W, walk.walk(g))
+                    finally:
+                        g.close()
+                    if dd:
+                        ctx.violation(kb + "/refused-but-content-changed", case, {"path": dd[0]})
+                except Exception as exc:  # noqa
+                    gc.collect()
+                    ctx.violation(kb + "/refused-but-file-unreadable", case, {"exc": type(exc).__name__})
+            continue
+        held_classes.append("modes:overwrite-while-open:%s:opened" % held)
+        try:
+            holder.close()
+        except Exception:  # noqa
+            pass
+        check_fresh(ctx, case, kb, work, f, old_id, lib)
     for p in (src, work):
         try:
             os.remove(p)
         except OSError:
             pass
-    ctx.case(case, True, ["modes:existing:%s" % ("non-empty" if nonempty else "empty"),
+    ctx.case(case, True, held_classes + ["modes:existing:%s" % ("non-empty" if nonempty else "empty"),
                           "modes:%s" % ("rich" if case.get("rich") else "plain")],
              sample={"part": "modes", "rich": case.get("rich"), "build": case.get("build", [])[:8]})
 
